@@ -299,7 +299,7 @@ func parseRun(args []string) error {
 		bom := map[string]any{"bomFormat": "CycloneDX", "specVersion": "1." + ver[4:], "version": 1, "serialNumber": "urn:uuid:3e671687-395b-41f5-a30f-a58921a69b79"}
 		total := 0
 		if r.Intn(4) > 0 {
-			mc, c := cdxInput(r, 1)
+			mc, c := cdxInput(r, 1+r.Intn(3))
 			bom["metadata"] = map[string]any{"component": mc}
 			total += c
 		}
@@ -332,6 +332,24 @@ func parseRun(args []string) error {
 			walk(c.(map[string]any))
 		}
 		emit("cdx", ver, bom, map[string]any{"resolves": true, "inputkeys": len(refs) + anon, "inputunique": len(refs)+anon == total, "ncomps": total})
+		if i%10 == 0 {
+			// a repeated reference inside the main component's subtree, reference-less components there and at the top
+			// level: every reference-less component still gets its own generated identifier
+			lib := func(name string, ref string, kids ...any) map[string]any {
+				c := map[string]any{"type": "library", "name": name}
+				if ref != "" {
+					c["bom-ref"] = ref
+				}
+				if len(kids) > 0 {
+					c["components"] = kids
+				}
+				return c
+			}
+			t := map[string]any{"bomFormat": "CycloneDX", "specVersion": "1." + ver[4:], "version": 1,
+				"metadata":   map[string]any{"component": lib("main", "dup", lib("twin", "dup"), lib("x", "x"), lib("anon-in-main", ""))},
+				"components": []any{lib("anon-top-1", ""), lib("y", "y", lib("anon-deep", "")), lib("anon-top-2", "")}}
+			emit("cdx", ver, t, map[string]any{"resolves": true, "inputkeys": 7, "inputunique": false, "ncomps": 8})
+		}
 
 		// ---- SPDX documents: elements, relationships to present / missing / special targets
 		ids := []string{"a", "b", "c"}[:1+r.Intn(3)]
@@ -594,6 +612,33 @@ func sniffRun(args []string) error {
 			}
 		}
 		os.RemoveAll(dir)
+	}
+	// a stream the caller has already read from (a magic-number peek, a read to the end): detection still looks at the
+	// whole document and leaves the stream at its start
+	for _, f := range []string{"spdx23", "cdx14", "cdx15", "cdx13"} {
+		data, k, _ := writeDoc(tinyDoc(), trFormats[f], 2)
+		if k != "ok" {
+			continue
+		}
+		for _, adv := range []int{1, 16, len(data) / 2, len(data)} {
+			ev := sniffObserve(data)
+			rd := bytes.NewReader(data)
+			io.CopyN(io.Discard, rd, int64(adv))
+			var got formats.Format
+			var ferr error
+			k2, t2 := guarded(20*time.Second, func() { s := formats.Sniffer{}; got, ferr = s.SniffReader(rd) })
+			pos, _ := rd.Seek(0, io.SeekCurrent)
+			rest, _ := io.ReadAll(rd)
+			sid++
+			ev["o"], ev["res"], ev["err"] = outcome(k2, t2), string(got), ferr != nil
+			ev["atype"], ev["aversion"], ev["aenc"] = got.Type(), got.Version(), got.Encoding()
+			ev["amajor"], ev["aminor"], ev["auri"] = got.Major(), got.Minor(), got.URI()
+			ev["pos"], ev["restlen"] = int(pos), len(rest)
+			// what such a stream is detected as is not decided by the property (the code reads from where the stream stands);
+			// where the stream is left afterwards is: at its start
+			ev["op"], ev["sid"], ev["src"], ev["want"], ev["preread"] = "SNIFF", sid, fmt.Sprintf("pre-read:%s:%d", f, adv), "", adv
+			w.write(ev)
+		}
 	}
 	// paths that are not readable files: missing, a directory, a dangling symbolic link
 	if dir, err := os.MkdirTemp("", "vh-sniffpath-"); err == nil {
